@@ -38,13 +38,51 @@ def load(prop):
     return mod
 
 
+def _cover_start():
+    """VCHECK_COVER=<dir>: measuring aid (tools/cover.py) - record which lines of the repository's package each worker executed.
+    Uses sys.monitoring (each line reports once, then disables itself), so it does not change what is executed."""
+    d = os.environ.get('VCHECK_COVER')
+    if not d:
+        return None
+    mon = sys.monitoring
+    hit = {}
+    root = os.path.realpath(os.path.join(REPO, 'prysm')) + os.sep
+
+    def on_line(code, line):
+        f = code.co_filename
+        if f.startswith(root) or os.path.realpath(f).startswith(root):
+            hit.setdefault(f, set()).add(line)
+        return mon.DISABLE
+    try:
+        mon.use_tool_id(mon.COVERAGE_ID, 'vcheck-cover')
+    except ValueError:
+        pass
+    mon.register_callback(mon.COVERAGE_ID, mon.events.LINE, on_line)
+    mon.set_events(mon.COVERAGE_ID, mon.events.LINE)
+    return d, hit
+
+
+def _cover_stop(state, tag):
+    if not state:
+        return
+    d, hit = state
+    sys.monitoring.set_events(sys.monitoring.COVERAGE_ID, 0)
+    os.makedirs(d, exist_ok=True)
+    with open(os.path.join(d, '%s-%d.json' % (tag, os.getpid())), 'w') as fh:
+        json.dump({os.path.realpath(f): sorted(v) for f, v in hit.items()}, fh)
+
+
 def _task(args):
     prop, cname, tier, seed, shard, nshards = args
     import warnings
     warnings.simplefilter('ignore')
+    cov = _cover_start()
     mod = load(prop)
     clause = next(c for c in mod.CLAUSES if c.name == cname)
-    return cname, shard, core.run_task(prop, clause, tier, seed, shard, nshards)
+    try:
+        return cname, shard, core.run_task(prop, clause, tier, seed, shard, nshards)
+    finally:
+        _cover_stop(cov, '%s-%s-%d' % (prop, cname, shard))
 
 
 def run_replay_file(mod, path):
